@@ -19,6 +19,12 @@ for tag in sorted(os.listdir(os.path.join(VERIF, 'seeded'))):
         _, prop, change, needs, caught, missed, strengthened = rows[tag]
         meta.update({'property': prop, 'change': change, 'needs_to_manifest': needs, 'caught_by_quick_tier': caught,
                      'not_seen_by': missed, 'strengthened': strengthened})
+    elif tag.startswith('N'):
+        for line in open(os.path.join(VERIF, 'DESIGN.md'), encoding='utf8'):
+            cells = [c.strip() for c in line.strip().strip('|').split('|')]
+            if len(cells) == 3 and cells[0] == tag:
+                meta.update({'kind': 'negative control: property-preserving change, every check must stay quiet', 'change': cells[1],
+                             'result': cells[2]})
     else:
         print('no DESIGN row for', tag)
     meta['how_applied'] = ('tools/try_seed.py: patch applied to a fresh scratch worktree of /repo HEAD, demo run on clean and patched '
